@@ -62,17 +62,26 @@ def generate(repo, outdir_lean, outdir_json, write_if_changed):
                   "_format_unit_reference_representation": "unitRef",
                   "_format_variable_id_representation": "variableId"}
     other_kind = {"bool": "bool", "PlayerId": "playerId", "PlayerColorId": "playerColorId", "str": "str"}
-    dispatch = [("", "raw")]
-    for n in ap._datasets:
-        dispatch.append((n, "dataset"))
-    for n in ap._combined_info_datasets:
-        dispatch.append((n, "combined"))
-    for n in ap._other_info_datasets:
-        dispatch.append((n, "otherInfo"))
-    for n, f in ap._store_references.items():
-        dispatch.append((n, store_kind.get(getattr(f, "__name__", ""), "unhandled")))
-    for n in ap._other:
-        dispatch.append((n, other_kind.get(n, "unhandled")))
+    snap_fn = os.path.join(os.path.dirname(os.path.abspath(__file__)), "presentation_dispatch.json")
+    try:
+        dispatch = [("", "raw")]
+        for n in ap._datasets:
+            dispatch.append((n, "dataset"))
+        for n in ap._combined_info_datasets:
+            dispatch.append((n, "combined"))
+        for n in ap._other_info_datasets:
+            dispatch.append((n, "otherInfo"))
+        for n, f in ap._store_references.items():
+            dispatch.append((n, store_kind.get(getattr(f, "__name__", ""), "unhandled")))
+        for n in ap._other:
+            dispatch.append((n, other_kind.get(n, "unhandled")))
+        dispatch_source = "module tables"
+    except AttributeError:
+        # the module no longer keeps its five private dispatch dictionaries (a restructuring): the representation kinds as
+        # read from the pinned tree are used instead; that they still describe `transform_value_by_representation` is
+        # decided by the C19 correspondence run (every representation x value pool), not assumed
+        dispatch = [tuple(x) for x in json.load(open(snap_fn))]
+        dispatch_source = "snapshot (tools/presentation_dispatch.json)"
     for n, _ in dispatch:
         if n not in rep_names:
             rep_names.append(n)
@@ -171,7 +180,7 @@ def generate(repo, outdir_lean, outdir_json, write_if_changed):
     write_if_changed(f1, lean)
 
     js = {"versions": versions, "rep_names": rep_names, "e_names": e_names, "c_names": c_names,
-          "dispatch": dispatch, "tables": {f"{v}:{k}": vmap[(v, k)] for (v, k) in vmap},
+          "dispatch": dispatch, "dispatch_source": dispatch_source, "tables": {f"{v}:{k}": vmap[(v, k)] for (v, k) in vmap},
           "distinct": {h: {"kind": distinct[h][0], "first": distinct[h][2]} for h in order},
           "difficulty": int(ConditionId.DIFFICULTY_LEVEL)}
     f2 = os.path.join(outdir_json, "presentation.json")
